@@ -29,13 +29,24 @@ func assertMatches(at string, cc *ssa.CallCommon, callee *ssa.Function) bool {
 		names = append(names, cc.Method.Name(), cc.Method.FullName())
 	} else if dn := dynCallName(cc); dn != "" {
 		names = append(names, dn)
+	} else if b, ok := cc.Value.(*ssa.Builtin); ok {
+		names = append(names, b.Name())
 	}
 	for _, n := range names {
+		n = stripTypeArgs(n)
 		if n == at || strings.HasSuffix(n, "."+at) || strings.HasSuffix(n, ")."+at) {
 			return true
 		}
 	}
 	return false
+}
+
+// stripTypeArgs: `Load[github.com/x.T]` -> `Load` (instances of generic functions are referred to by the generic's name).
+func stripTypeArgs(n string) string {
+	if i := strings.Index(n, "["); i > 0 && strings.HasSuffix(n, "]") {
+		return n[:i]
+	}
+	return n
 }
 
 func (f *Frame) callAsserts(cur *blockCur, in ssa.Instruction, cc *ssa.CallCommon, callee *ssa.Function, args []Val) {
